@@ -23,6 +23,11 @@ func checkC13(r *Run) {
 	add := func(mk func() *descgen.Entry, override bool) {
 		a := caseFrom(mk())
 		b := separate(mk(), override)
+		// every third pair puts the structs at a gopkg.in-style import path
+		b.DottedPath = len(pairs)%3 == 1
+		if b.DottedPath {
+			b.Tags = append(b.Tags, "dotted-import-path")
+		}
 		cases = append(cases, a, b)
 		pairs = append(pairs, rt.Pair{A: a.Name, B: b.Name, PRF: a.Name, Label: fmt.Sprintf("separate-package/override=%v", override)})
 	}
